@@ -1753,8 +1753,8 @@ def run(ctx, replay=None):
                 seqs.append(c["seq"])
             elif c.get("kind") == "forged":
                 forged.append(c["text"])
-        seqs += [gen_sequence(rng) for _ in range(ctx.n(500, 8000))]
-        forged += [gen_forged(rng) for _ in range(ctx.n(400, 6000))]
+        seqs += [gen_sequence(rng) for _ in range(ctx.n(400, 8000))]
+        forged += [gen_forged(rng) for _ in range(ctx.n(300, 6000))]
     lines_cases, lines_meta, sender_cases, sender_meta = [], [], [], []
     json_cases, json_meta = [], []
     for seq in seqs:
